@@ -478,6 +478,36 @@ def run(ctx, chk, tier="quick"):
                            "every write of a step starts with INSERT / UPDATE / DELETE / REPLACE, or follows one on every path",
                            key="%s|%s|first-keyword:%s:%s" % (f.module.relpath, f.qualname, fk, st.table),
                            why="with no transaction open the statement runs in autocommit: rows written before a later failure or kill stay in the file, and the `with connection:` rollback cannot undo them")
+    # DDL inside a step (CREATE / DROP / ALTER through execute): the driver opens no transaction before it either, so with no
+    # transaction open it is durable at once and the `with connection:` rollback cannot undo it
+    for name, sm in steps.items():
+        for fq in sorted(sm.tree):
+            f = ctx.cg.func(fq)
+            fl = None
+            for site in ctx.sites_in(f):
+                if site.method == "executescript":
+                    continue
+                for st in site.statements:
+                    is_ddl = st.kind in ("create_table", "create_view") or (st.kind == "ddl")
+                    if not is_ddl:
+                        continue
+                    if fl is None:
+                        fl = Flow.of(f)
+                    me = fl.cfg.node_containing(site.call)
+                    opened = False
+                    for other in ctx.sites_in(f):
+                        if other is site or other.method == "executescript":
+                            continue
+                        if any(o.kind in ("insert", "update", "delete") and getattr(o, "first_keyword", None) in DML_FIRST for o in other.statements):
+                            on = fl.cfg.node_containing(other.call)
+                            if on is not None and me is not None and on != me and fl.cfg.dominates(on, me):
+                                opened = True
+                    what = "%s %s" % (st.kind.replace("_", " ").upper(), getattr(st, "name", "") or getattr(st, "text", "")[:30])
+                    chk.ob("C20.O6", opened, where_of(f, site.call),
+                           "step %s executes %s%s" % (name, what, "" if not opened else " after a write that opened the transaction"),
+                           "a step changes the schema only inside the transaction its writes opened (or not at all)",
+                           key="%s|%s|ddl:%s" % (f.module.relpath, f.qualname, what),
+                           why="CREATE / DROP executed with no transaction open is committed at once: a step that fails afterwards leaves the object behind, and the next run stops at `table already exists`")
     chk.ob("C20.O6", True, where_of(dispatch, dispatch.node), "%d INSERT / UPDATE / DELETE sites in the five steps read for their first keyword" % n_dml,
            "every write of a step starts with INSERT / UPDATE / DELETE / REPLACE, or follows one on every path", key="dispatch|first-keywords")
     chk.floor("INSERT / UPDATE / DELETE sites in the five steps", n_dml, 13)
